@@ -29,6 +29,8 @@ type item struct {
 	mode os.FileMode // mode of the directory itself / of the file
 	data []byte      // file bytes
 	ents []ent       // directory entries, parents before children
+	// defaultPath: added with an empty path argument (the store then reads <working dir>/<name>)
+	defaultPath bool
 }
 
 func (it item) describe() string {
@@ -383,14 +385,14 @@ func blobItems() []item {
 		return buildItem(name, 0o755, []gent{{-1, 0}, {-1, 1}, {-1, 2}, {1, 0}}, codes)
 	}
 	return []item{
-		{name: "a.txt", mode: 0o644, data: same},
+		{name: "a.txt", mode: 0o644, data: same, defaultPath: true},
 		{name: "b.txt", mode: 0o600, data: same},
 		{name: "sub/c.txt", mode: 0o644, data: same},
 		{name: "d.bin", mode: 0o644, data: bigBytes},
 		{name: "L" + strings.Repeat("x", 99) + "0", mode: 0o755, data: bigBytes},
 		{name: "ü-日本.txt", mode: 0o644, data: []byte{}},
 		{name: "empty2", mode: 0o444, data: []byte{}},
-		small("dirg"),
+		func() item { it := small("dirg"); it.defaultPath = true; return it }(),
 		small("dirh"),
 	}
 }
